@@ -1,58 +1,58 @@
-// C18: condition primitives vs their documented matching — builds each primitive with
-// condition.Build and calls the real Match on a request assembled from the op line.
+// C18: condition primitives vs their documented matching — builds each of the primitives of funcProtos
+// with condition.Build and calls the real Match on a request assembled from the op line.
 //
-// op = "m;prim;a0;a1;fold;pips;host;path;method;query;headers;cookies;tags;cip;vip" (see Lean driver).
-// result = T | F | builderr.
+// op = 28 ';'-separated fields, see the Lean driver (BfeVerif/C18/Driver.lean).  result = T | F | builderr.
 package main
 
 import (
+	"fmt"
 	"net"
 	"net/url"
+	"regexp"
+	"sort"
+	"strconv"
 	"strings"
 
 	"bfeverif/harness/internal/vh"
 	"github.com/bfenetworks/bfe/bfe_basic"
 	"github.com/bfenetworks/bfe/bfe_basic/condition"
+	"github.com/bfenetworks/bfe/bfe_basic/condition/parser"
 	"github.com/bfenetworks/bfe/bfe_http"
+	"github.com/bfenetworks/bfe/bfe_tls"
+	"github.com/bfenetworks/bfe/bfe_util"
 )
 
-type prim struct {
-	name  string
-	nargs int  // string arguments
-	fold  bool // has a case_insensitive argument
-	kind  string
-}
+var (
+	protos = parser.VerifFuncProtos()
+	names  []string
+)
 
-var prims = []prim{
-	{"req_host_in", 1, false, "host"}, {"req_host_suffix_in", 1, false, "host"}, {"req_port_in", 1, false, "port"},
-	{"req_method_in", 1, false, "method"},
-	{"req_path_in", 1, true, "path"}, {"req_path_prefix_in", 1, true, "path"}, {"req_path_suffix_in", 1, true, "path"},
-	{"req_path_contain", 1, true, "path"}, {"req_path_element_prefix_in", 1, true, "path"},
-	{"req_query_key_in", 1, false, "qkey"}, {"req_query_value_in", 2, true, "qval"}, {"req_query_value_prefix_in", 2, true, "qval"},
-	{"req_query_value_suffix_in", 2, true, "qval"}, {"req_query_value_contain", 2, true, "qval"},
-	{"req_header_key_in", 1, false, "hkey"}, {"req_header_value_in", 2, true, "hval"}, {"req_header_value_prefix_in", 2, true, "hval"},
-	{"req_header_value_suffix_in", 2, true, "hval"}, {"req_header_value_contain", 2, true, "hval"},
-	{"req_cookie_key_in", 1, false, "ckey"}, {"req_cookie_value_in", 2, true, "cval"}, {"req_cookie_value_prefix_in", 2, true, "cval"},
-	{"req_tag_match", 2, false, "tag"}, {"req_cip_range", 2, false, "ip"}, {"req_vip_in", 1, false, "vip"},
+func init() {
+	for k := range protos {
+		names = append(names, k)
+	}
+	sort.Strings(names)
 }
 
 var (
 	hostNames = []string{"example.org", "Example.ORG", "www.example.org", "a.b", "localhost", "", "[::1]", "[2001:db8::1]", "10.0.0.1"}
 	ports     = []string{"", ":80", ":8080", ":443", ":"}
 	paths     = []string{"/", "/a", "/A", "/a/", "/a/b", "/a/B/c", "/ab", "/api/report", "/api/reports", "/API/report/x", "", "/a//b", "/x.jpg", "/X.JPG"}
-	words     = []string{"a", "A", "ab", "Ab", "abc", "b", "v1", "V1", "", "x-y", "GET", "get", "POST", "80", "8080", "443"}
-	keys      = []string{"k", "K", "key", "uid", "X-Key", "User-Agent", "Referer", "X-Empty"}
+	words     = []string{"a", "A", "ab", "Ab", "abc", "b", "v1", "V1", "", "x-y", "GET", "get", "POST", "80", "8080", "443", "B", "aa", "Z", "a0", "_"}
 	ipPool    = []string{"1.1.1.1", "1.1.1.0", "1.1.1.2", "10.0.0.1", "10.0.0.255", "10.0.1.0", "255.255.255.255", "0.0.0.0", "::1", "::2", "2001:db8::1", "2001:db8::ffff", "bad"}
+	regs      = []string{"a*", "^a", "b$", "^/a(/|$)", "(?i)^ab", "[0-9]+", ".", "^$", "(", "example\\.org$", "x-y|v1"}
+	hashes    = []string{"0-9999", "0-4999", "5000-9999", "0", "1|2|3", "0-99|9900-9999", "2500-7499", "10000", "5-3", "a"}
+	times     = []string{"20190204203000H", "20190204203000Z", "20190204123000Z", "20190205000000Z", "20190203235959Z", "20190204203001H", "20190204202959H", "19700101000000Z", "19691231235959A", "bad", "20190204203000"}
+	tods      = []string{"203000H", "123000Z", "000000Z", "235959Z", "203000Z", "120000H", "043000A", "12 Z", "bad", "240000Z", "203001H", "202959H"}
 )
 
 func pick(r *vh.Rand, xs []string) string { return xs[r.Intn(len(xs))] }
 
 func patList(r *vh.Rand, pool []string, want string) string {
-	n := r.Range(1, 3)
+	n := r.Range(1, 5)
 	var ps []string
 	for i := 0; i < n; i++ {
 		if want != "" && r.Chance(1, 2) {
-			// derive a pattern from the value: exact / prefix / suffix / infix / case-flipped
 			w := want
 			switch r.Intn(5) {
 			case 1:
@@ -88,13 +88,15 @@ func kvs(r *vh.Rand, keyPool, valPool []string, max int) [][2]string {
 	return out
 }
 
+func hx(s string) string { return vh.Hex([]byte(s)) }
+
 func encPairs(p [][2]string) string {
 	if len(p) == 0 {
 		return "-"
 	}
 	var s []string
 	for _, kv := range p {
-		s = append(s, vh.Hex([]byte(kv[0]))+":"+vh.Hex([]byte(kv[1])))
+		s = append(s, hx(kv[0])+":"+hx(kv[1]))
 	}
 	return strings.Join(s, ",")
 }
@@ -107,93 +109,288 @@ func ip16(s string) string {
 	return vh.Hex(ip.To16())
 }
 
+func find(kv [][2]string, k string) string {
+	for _, e := range kv {
+		if e[0] == k {
+			return e[1]
+		}
+	}
+	return ""
+}
+
 func gen(r *vh.Rand) string {
-	p := prims[r.Intn(len(prims))]
+	name := names[r.Intn(len(names))]
+	kinds := protos[name]
+	hasFold := len(kinds) > 0 && kinds[len(kinds)-1] == parser.BOOL
 	host := pick(r, hostNames) + pick(r, ports)
 	path := pick(r, paths)
 	method := r.Pick("GET", "POST", "get", "HEAD")
-	query := kvs(r, []string{"k", "K", "key", "uid", "q"}, words, 3)
-	headers := kvs(r, []string{"X-Key", "User-Agent", "Referer", "X-Empty"}, words, 3)
-	cookies := kvs(r, []string{"k", "uid", "sid"}, []string{"a", "A", "abc", "v1", "x-y"}, 3)
+	qkeys := []string{"k", "K", "key", "uid", "q"}
+	hkeys := []string{"X-Key", "User-Agent", "Referer", "X-Empty"}
+	ckeys := []string{"k", "uid", "sid"}
+	query := kvs(r, qkeys, words, 3)
+	headers := kvs(r, hkeys, words, 3)
+	cookies := kvs(r, ckeys, []string{"a", "A", "abc", "v1", "x-y", "B"}, 3)
 	var tags []string
 	if r.Chance(2, 3) {
-		tags = append(tags, vh.Hex([]byte(r.Pick("t1", "t2")))+":"+vh.Hex([]byte(r.Pick("a", "a:1", "b:x:y", "")))+"/"+vh.Hex([]byte(r.Pick("b", "c:2", "a"))))
+		tags = append(tags, hx(r.Pick("t1", "t2"))+":"+hx(r.Pick("a", "a:1", "b:x:y", ""))+"/"+hx(r.Pick("b", "c:2", "a")))
 	}
-	cip, vip := "n", "n"
+	cip, vip, sip, cipstr := "n", "n", "n", "-"
 	if r.Chance(5, 6) {
-		cip = ip16(pick(r, ipPool[:12]))
+		s := pick(r, ipPool[:12])
+		cip, cipstr = ip16(s), hx(net.ParseIP(s).String())
 	}
 	if r.Chance(5, 6) {
 		vip = ip16(pick(r, ipPool[:12]))
 	}
-	a0, a1, pips := "", "", "-"
-	find := func(kv [][2]string, k string) string {
-		for _, e := range kv {
-			if e[0] == k {
-				return e[1]
+	if r.Chance(5, 6) {
+		sip = ip16(pick(r, ipPool[:12]))
+	}
+	uri := path
+	if len(query) > 0 {
+		uri += "?" + query[0][0] + "=" + query[0][1]
+	}
+	proto := r.Pick("HTTP/1.1", "HTTP/1.0", "http/1.1")
+	secure := r.Chance(1, 2)
+	sesproto := r.Pick("h2", "H2", "spdy/3.1", "http/1.1", "")
+	tls := "n"
+	if r.Chance(2, 3) {
+		auth := "0"
+		if r.Bool() {
+			auth = "1"
+		}
+		tls = hx(r.Pick("example.org", "Example.org", "", "a.b")) + ":" + auth + ":" + hx(r.Pick("ca1", "CA1", "", "ca2"))
+	}
+	hosttag := r.Pick("", "t1", "T1", "vip")
+	trusted := r.Pick("0", "1")
+	resp := "n"
+	var rheaders [][2]string
+	if r.Chance(2, 3) {
+		rheaders = kvs(r, []string{"X-Key", "Server", "X-Empty"}, words, 2)
+		resp = hx(r.Pick("200", "404", "500", "301")) + "|" + encPairs(rheaders)
+	}
+	ctx := "n"
+	ctxVals := map[string]string{}
+	if r.Chance(3, 4) {
+		var cs []string
+		for _, k := range []string{"ck", "uid"} {
+			if r.Bool() {
+				if r.Chance(1, 5) {
+					cs = append(cs, hx(k)+":*")
+				} else {
+					v := pick(r, words)
+					ctxVals[k] = v
+					cs = append(cs, hx(k)+":"+hx(v))
+				}
 			}
 		}
-		return ""
+		ctx = "-"
+		if len(cs) > 0 {
+			ctx = strings.Join(cs, ",")
+		}
 	}
-	switch p.kind {
-	case "host":
-		a0 = patList(r, []string{"example.org", "EXAMPLE.org", ".org", "a.b", "[", "", "[::1]", "10.0.0.1", "x:1"}, strings.SplitN(host, ":", 2)[0])
-	case "port":
-		a0 = patList(r, []string{"80", "8080", "443", ""}, "")
-	case "method":
-		a0 = patList(r, []string{"GET", "get", "POST", "HEAD|GET"}, method)
-	case "path":
+
+	a0, a1 := "", ""
+	hints := map[string]bool{}
+	ipHint := func(v string) { hints["i"+hx(v)+"="+ip16(v)] = true }
+	tHint := func(v string) {
+		if t, e := bfe_util.ParseTime(v); e == nil {
+			hints[fmt.Sprintf("t%s=%d", hx(v), t.Unix())] = true
+		} else {
+			hints["t"+hx(v)+"=x"] = true
+		}
+	}
+	sHint := func(v string) {
+		var p, z string
+		if _, e := fmt.Sscanf(v, "%6s%s", &p, &z); e == nil {
+			hints["s"+hx(v)+"="+hx(p)+":"+hx(z)] = true
+		} else {
+			hints["s"+hx(v)+"=x"] = true
+		}
+	}
+	hostPart := strings.SplitN(host, ":", 2)[0]
+	valPat := func(v string) string { return patList(r, words, v) }
+	switch {
+	case name == "req_host_in" || name == "req_host_suffix_in":
+		a0 = patList(r, []string{"example.org", "EXAMPLE.org", ".org", "a.b", "[", "", "[::1]", "10.0.0.1", "x:1", "b.a", "z"}, hostPart)
+	case name == "req_host_tag_in":
+		a0 = patList(r, []string{"t1", "T1", "vip", "", "x"}, hosttag)
+	case name == "req_port_in":
+		a0 = patList(r, []string{"80", "8080", "443", "", "1"}, "")
+	case name == "req_method_in":
+		a0 = patList(r, []string{"GET", "get", "POST", "HEAD", "PUT", "A"}, method)
+	case name == "req_proto_match":
+		a0 = r.Pick("HTTP/1.1", "http/1.1", "h2", "H2", "spdy/3.1", "")
+	case strings.HasPrefix(name, "req_path_") && !strings.HasSuffix(name, "regmatch"):
 		a0 = patList(r, paths, path)
-	case "qkey":
-		a0 = patList(r, []string{"k", "K", "key", "uid", "q", "zz"}, "")
-	case "hkey":
-		a0 = patList(r, []string{"X-Key", "User-Agent", "Referer", "X-Empty", "X-None"}, "")
-	case "ckey":
+	case name == "req_query_key_in" || name == "req_query_key_prefix_in":
+		a0 = patList(r, []string{"k", "K", "key", "uid", "q", "zz", "ke", "u", ""}, "")
+	case name == "req_header_key_in" || name == "res_header_key_in":
+		a0 = patList(r, []string{"X-Key", "User-Agent", "Referer", "X-Empty", "X-None", "Server"}, "")
+	case name == "req_cookie_key_in":
 		a0 = patList(r, []string{"k", "uid", "sid", "zz"}, "")
-	case "qval":
-		a0 = pick(r, []string{"k", "K", "key", "uid", "q", "zz"})
-		a1 = patList(r, words, find(query, a0))
-	case "hval":
-		a0 = pick(r, []string{"X-Key", "User-Agent", "Referer", "X-Empty", "X-None"})
-		a1 = patList(r, words, find(headers, a0))
-	case "cval":
-		a0 = pick(r, []string{"k", "uid", "sid", "zz"})
-		a1 = patList(r, []string{"a", "A", "abc", "v1", "x-y", ""}, find(cookies, a0))
-	case "tag":
+	case strings.HasPrefix(name, "req_query_value_"):
+		a0 = pick(r, append(qkeys, "zz"))
+		a1 = valPat(find(query, a0))
+	case strings.HasPrefix(name, "req_header_value_"):
+		a0 = pick(r, append(hkeys, "X-None"))
+		a1 = valPat(find(headers, a0))
+	case strings.HasPrefix(name, "req_cookie_value_"):
+		a0 = pick(r, append(ckeys, "zz"))
+		a1 = valPat(find(cookies, a0))
+	case name == "res_header_value_in":
+		a0 = pick(r, []string{"X-Key", "Server", "X-Empty", "X-None"})
+		a1 = valPat(find(rheaders, a0))
+	case name == "res_code_in":
+		a0 = patList(r, []string{"200", "404", "500", "301", "20", ""}, "")
+	case name == "req_context_value_in":
+		a0 = r.Pick("ck", "uid", "zz", "")
+		a1 = valPat(ctxVals[a0])
+	case name == "req_tag_match":
 		a0 = r.Pick("t1", "t2", "t3")
 		a1 = r.Pick("a", "b", "c", "a:1", "")
-	case "ip":
+	case strings.HasSuffix(name, "ip_range"):
 		a0, a1 = pick(r, ipPool), pick(r, ipPool)
-		if r.Chance(1, 2) && cip != "n" {
-			// boundaries: the client address is start, end, start-1 or end+1 of a small range
+		if r.Chance(1, 2) {
 			base := net.ParseIP(pick(r, ipPool[:5])).To4()
 			lo, hi := net.IPv4(base[0], base[1], base[2], base[3]), net.IPv4(base[0], base[1], base[2], base[3]+byte(r.Intn(3)))
 			a0, a1 = lo.String(), hi.String()
-			c := net.IPv4(base[0], base[1], base[2], base[3]+byte(r.Intn(5))-1)
-			cip = vh.Hex(c.To16())
+			c := vh.Hex(net.IPv4(base[0], base[1], base[2], base[3]+byte(r.Intn(5))-1).To16())
+			if cip != "n" {
+				cip = c
+				b, _ := vh.UnHex(c)
+				cipstr = hx(net.IP(b).String())
+			}
+			if vip != "n" {
+				vip = c
+			}
+			if sip != "n" {
+				sip = c
+			}
 		}
-		pips = ip16(a0) + "," + ip16(a1)
-	case "vip":
+		ipHint(a0)
+		ipHint(a1)
+	case name == "req_vip_in":
 		a0 = patList(r, ipPool, "")
-		var ps []string
+		ipHint(a0)
 		for _, s := range strings.Split(a0, "|") {
-			ps = append(ps, ip16(s))
+			ipHint(s)
 		}
-		pips = strings.Join(ps, ",")
+	case name == "ses_tls_sni_in":
+		a0 = patList(r, []string{"example.org", "EXAMPLE.ORG", "a.b", "", "x"}, "")
+	case name == "ses_tls_client_ca_in":
+		a0 = patList(r, []string{"ca1", "CA1", "ca2", "", "x"}, "")
+	}
+	if strings.HasSuffix(name, "regmatch") {
+		p := pick(r, regs)
+		if len(kinds) == 2 {
+			a1 = p
+		} else {
+			a0 = p
+		}
+	}
+	if strings.HasSuffix(name, "hash_in") {
+		p := pick(r, hashes)
+		if name == "req_cip_hash_in" {
+			a0 = p
+		} else {
+			a1 = p
+		}
+	}
+	if name == "bfe_time_range" {
+		a0, a1 = pick(r, times), pick(r, times)
+		if r.Chance(1, 2) {
+			a0, a1 = "20190204120000Z", "20190204203000H"
+		}
+	}
+	if name == "bfe_periodic_time_range" {
+		a0, a1 = pick(r, tods), pick(r, tods)
+		if r.Chance(1, 2) {
+			a0, a1 = r.Pick("120000H", "000000H", "203000H"), r.Pick("203000H", "235959H", "203000H")
+		}
+	}
+	if strings.HasPrefix(name, "bfe_") {
+		dt := pick(r, times)
+		headers = append(headers, [2]string{"X-Bfe-Debug-Time", dt})
+		tHint(dt)
+		tHint(a0)
+		tHint(a1)
+		sHint(a0)
+		sHint(a1)
+	}
+	// regexp and hash oracles on candidate values
+	re, hb := "-", "-"
+	if strings.HasSuffix(name, "regmatch") {
+		p := a0
+		if len(kinds) == 2 {
+			p = a1
+		}
+		rx, err := regexp.Compile(p)
+		if err != nil {
+			re = "x"
+		} else {
+			cands := map[string]bool{"": true, hostPart: true, path: true, uri: true}
+			for _, kv := range append(append([][2]string{}, query...), headers...) {
+				cands[kv[1]] = true
+			}
+			var out []string
+			for v := range cands {
+				b := "0"
+				if rx.MatchString(v) {
+					b = "1"
+				}
+				out = append(out, hx(v)+"="+b)
+			}
+			sort.Strings(out)
+			re = strings.Join(out, ",")
+		}
+	}
+	if strings.HasSuffix(name, "hash_in") {
+		cands := map[string]bool{"": true}
+		for _, kv := range append(append(append([][2]string{}, query...), headers...), cookies...) {
+			cands[kv[1]] = true
+			cands[strings.ToLower(kv[1])] = true
+		}
+		if cipstr != "-" {
+			b, _ := vh.UnHex(cipstr)
+			cands[string(b)] = true
+		}
+		var out []string
+		for v := range cands {
+			out = append(out, hx(v)+"="+strconv.Itoa(condition.GetHash([]byte(v), condition.HashMatcherBucketSize)))
+		}
+		sort.Strings(out)
+		hb = strings.Join(out, ",")
 	}
 	fold := "0"
-	if p.fold && r.Bool() {
+	if hasFold && r.Bool() {
 		fold = "1"
 	}
 	tg := "-"
 	if len(tags) > 0 {
 		tg = strings.Join(tags, ",")
 	}
-	return strings.Join([]string{"m", p.name, vh.Hex([]byte(a0)), vh.Hex([]byte(a1)), fold, pips, vh.Hex([]byte(host)),
-		vh.Hex([]byte(path)), vh.Hex([]byte(method)), encPairs(query), encPairs(headers), encPairs(cookies), tg, cip, vip}, ";")
+	hs := "-"
+	if len(hints) > 0 {
+		var l []string
+		for h := range hints {
+			l = append(l, h)
+		}
+		sort.Strings(l)
+		hs = strings.Join(l, ",")
+	}
+	sec := "0"
+	if secure {
+		sec = "1"
+	}
+	return strings.Join([]string{"m", name, hx(a0), hx(a1), fold, hs, hx(host), hx(path), hx(method), encPairs(query),
+		encPairs(headers), encPairs(cookies), tg, cip, vip, hx(uri), hx(proto), sec, hx(sesproto), tls, sip, hx(hosttag),
+		trusted, resp, ctx, cipstr, re, hb}, ";")
 }
 
 // ---- execution --------------------------------------------------------------------------------
+
+func un(s string) string { b, _ := vh.UnHex(s); return string(b) }
 
 func unpairs(s string) ([][2]string, bool) {
 	if s == "-" {
@@ -205,12 +402,7 @@ func unpairs(s string) ([][2]string, bool) {
 		if len(p) != 2 {
 			return nil, false
 		}
-		k, ok1 := vh.UnHex(p[0])
-		v, ok2 := vh.UnHex(p[1])
-		if !ok1 || !ok2 {
-			return nil, false
-		}
-		out = append(out, [2]string{string(k), string(v)})
+		out = append(out, [2]string{un(p[0]), un(p[1])})
 	}
 	return out, true
 }
@@ -222,34 +414,39 @@ func quote(s string) string {
 	return `"` + s + `"`
 }
 
+func ipOf(s string) net.IP {
+	if s == "n" {
+		return nil
+	}
+	b, _ := vh.UnHex(s)
+	return net.IP(b)
+}
+
 func exec(op string) string {
 	f := strings.Split(op, ";")
-	if len(f) != 15 || f[0] != "m" {
+	if len(f) != 28 || f[0] != "m" {
 		return "bad-op"
 	}
-	var p *prim
-	for i := range prims {
-		if prims[i].name == f[1] {
-			p = &prims[i]
-		}
-	}
-	if p == nil {
+	kinds, ok := protos[f[1]]
+	if !ok {
 		return "bad-op"
 	}
-	un := func(s string) string { b, _ := vh.UnHex(s); return string(b) }
-	a0, a1 := un(f[2]), un(f[3])
-	args := []string{quote(a0)}
-	if p.nargs == 2 {
-		args = append(args, quote(a1))
-	}
-	if p.fold {
-		if f[4] == "1" {
-			args = append(args, "true")
+	strs := []string{un(f[2]), un(f[3]), ""}
+	var args []string
+	si := 0
+	for _, k := range kinds {
+		if k == parser.BOOL {
+			if f[4] == "1" {
+				args = append(args, "true")
+			} else {
+				args = append(args, "false")
+			}
 		} else {
-			args = append(args, "false")
+			args = append(args, quote(strs[si]))
+			si++
 		}
 	}
-	cond, err := condition.Build(p.name + "(" + strings.Join(args, ",") + ")")
+	cond, err := condition.Build(f[1] + "(" + strings.Join(args, ",") + ")")
 	if err != nil {
 		return "builderr"
 	}
@@ -259,7 +456,8 @@ func exec(op string) string {
 	if !ok1 || !ok2 || !ok3 {
 		return "bad-op"
 	}
-	hr := &bfe_http.Request{Method: un(f[8]), Host: un(f[6]), URL: &url.URL{Path: un(f[7])}, Header: bfe_http.Header{}}
+	hr := &bfe_http.Request{Method: un(f[8]), Host: un(f[6]), URL: &url.URL{Path: un(f[7])}, Header: bfe_http.Header{},
+		RequestURI: un(f[15]), Proto: un(f[16])}
 	var q []string
 	for _, kv := range query {
 		q = append(q, url.QueryEscape(kv[0])+"="+url.QueryEscape(kv[1]))
@@ -275,7 +473,21 @@ func exec(op string) string {
 		}
 		hr.Header["Cookie"] = []string{strings.Join(cs, "; ")}
 	}
-	req := &bfe_basic.Request{Session: &bfe_basic.Session{}, HttpRequest: hr}
+	ses := &bfe_basic.Session{IsSecure: f[17] == "1", Proto: un(f[18])}
+	ses.SetTrustSource(f[22] == "1")
+	if f[19] != "n" {
+		p := strings.Split(f[19], ":")
+		if len(p) != 3 {
+			return "bad-op"
+		}
+		ses.TlsState = &bfe_tls.ConnectionState{ServerName: un(p[0]), ClientAuth: p[1] == "1", ClientCAName: un(p[2])}
+	}
+	if ip := ipOf(f[20]); ip != nil {
+		ses.RemoteAddr = &net.TCPAddr{IP: ip, Port: 4321}
+	}
+	ses.Vip = ipOf(f[14])
+	req := &bfe_basic.Request{Session: ses, HttpRequest: hr}
+	req.Route.HostTag = un(f[21])
 	if f[12] != "-" {
 		req.Tags.TagTable = map[string][]string{}
 		for _, kv := range strings.Split(f[12], ",") {
@@ -290,13 +502,39 @@ func exec(op string) string {
 			req.Tags.TagTable[un(p[0])] = vs
 		}
 	}
-	if f[13] != "n" {
-		b, _ := vh.UnHex(f[13])
-		req.ClientAddr = &net.TCPAddr{IP: net.IP(b), Port: 1234}
+	if ip := ipOf(f[13]); ip != nil {
+		req.ClientAddr = &net.TCPAddr{IP: ip, Port: 1234}
 	}
-	if f[14] != "n" {
-		b, _ := vh.UnHex(f[14])
-		req.Session.Vip = net.IP(b)
+	if f[23] != "n" {
+		p := strings.Split(f[23], "|")
+		if len(p) != 2 {
+			return "bad-op"
+		}
+		code, _ := strconv.Atoi(un(p[0]))
+		rh, ok := unpairs(p[1])
+		if !ok {
+			return "bad-op"
+		}
+		req.HttpResponse = &bfe_http.Response{StatusCode: code, Header: bfe_http.Header{}}
+		for _, kv := range rh {
+			req.HttpResponse.Header[kv[0]] = []string{kv[1]}
+		}
+	}
+	if f[24] != "n" {
+		req.Context = map[interface{}]interface{}{}
+		if f[24] != "-" {
+			for _, kv := range strings.Split(f[24], ",") {
+				p := strings.Split(kv, ":")
+				if len(p) != 2 {
+					return "bad-op"
+				}
+				if p[1] == "*" {
+					req.Context[un(p[0])] = 42
+				} else {
+					req.Context[un(p[0])] = un(p[1])
+				}
+			}
+		}
 	}
 	if cond.Match(req) {
 		return "T"
